@@ -115,7 +115,7 @@ def gen(args):
     wid, n, sd = args
     rng = np.random.default_rng([sd, wid, 1818])
     out = []
-    for i in range(n):
+    for i in core.timed(range(n)):
         kind = ["random", "noisy-linear", "recover", "random", "noisy-linear", "recover", "offset"][i % 7]
         padded = bool(rng.integers(2)) if kind != "offset" else False
         est = "default" if padded else ["default", "lr0", "ridge"][int(rng.integers(3))]
